@@ -23,6 +23,13 @@ theorem render_globals_are_font_registry : ∀ s ∈ sitesOf "C25", s.kind = "gl
     s.file = "d2renderers/d2fonts/d2fonts_common.go" ∧ (s.fn = "AddFontFamily" ∨ s.fn = "AddFontStyle") := by
   decide
 
+/-- one render is single-threaded: no `go` statement, WaitGroup or errgroup in the render-path packages -/
+theorem no_render_goroutines : ∀ s ∈ sitesOf "C25", s.kind ≠ "goroutine" := by decide
+
+/-- no function of the render-path packages copies a package-level slice / map / pointer into a local and writes
+    through it (the write would land in state shared by every later render of the process) -/
+theorem no_render_alias_writes : ∀ s ∈ sitesOf "C25", s.kind ≠ "aliaswrite" := by decide
+
 /-! ### sortObjects: the comparator is a strict weak order, so a stable sort has one result -/
 
 theorem sortLess_iff_keyLess (a b : DrawObj) : sortLess a b = keyLess (drawKey a) (drawKey b) := by
